@@ -157,7 +157,7 @@ def run(tier):
         for j, f in enumerate(edge_files(r)):
             key = L.gen_key(r)
             L.rec_to_binary(rec, f, 5, key)
-            if j % 3 == 0:
+            if j % 3 == 0 or any(ord(ch) > 126 for k_, v_ in f.comments.items() for ch in k_ + v_):
                 try:
                     tdisk = L.rec_write(rec, f, key, True, wd)
                     L.rec_read(rec, tdisk, key, True, True, wd, auth=rec.last_written)
